@@ -796,7 +796,62 @@ def run_check(chk, prop):
         near = [small + [a] for a in probes] + [small + [a, b] for a in probes for b in probes]
         near += [small[:-1] + [a, small[-1]] for a in probes]
         vlib.run_scripts(chk, me, c_exe, m_exe, near, orc)
+        if not chk.oracle_failures:
+            # the difference may be a damaged shape/colouring whose consequence (a lost
+            # element, a crash in a later fix-up) needs further operations: random
+            # erase-heavy continuations from the minimised difference and from the
+            # original script
+            for base in (small, m["script"][:m["index"] + 1]):
+                if chk.oracle_failures:
+                    break
+                vlib.extend_search(chk, me, c_exe, m_exe, base, _continuation(prop, base), orc,
+                                   count=1500 if chk.tier == "quick" else 6000)
+            vlib.shrink_failures(chk, me, c_exe, orc)
     return chk.finish()
+
+
+def _continuation(prop, base):
+    """random continuation generator over the keys the script uses"""
+    if prop == "C08" or any(op.startswith("map ") for op in base):
+        ks = [int(op.split()[2]) // 2 for op in base if op.startswith("map ins")]
+        kmax = max(ks + [3]) + 2
+
+        def cont(rng):
+            out = []
+            for _ in range(rng.randrange(4, 60)):
+                r = rng.random()
+                k = rng.randrange(kmax)
+                if r < 0.45:
+                    out.append("map erase %d" % k)
+                elif r < 0.65:
+                    out.append("map eraseit %d" % k)
+                elif r < 0.90:
+                    out.append("map ins %d %d 1" % (2 * k + rng.randrange(2), rng.randrange(8)))
+                else:
+                    out.append("map find %d" % k)
+            return out + ["map show"]
+        return cont
+    conts = sorted(set(op.split()[0] for op in base if op.split()[0] in ("bt", "rb"))) or ["rb"]
+    ks = [int(op.split()[3]) for op in base if len(op.split()) == 4 and op.split()[1] in ("ins", "insh")]
+    kmax = max(ks + [2]) + 2
+    kmin = min(ks + [0])
+
+    def cont(rng):
+        c = rng.choice(conts)
+        out = []
+        for _ in range(rng.randrange(4, 60)):
+            r = rng.random()
+            k = rng.randrange(kmin, kmax)
+            if r < 0.55:
+                out.append("%s erase %d" % (c, k))
+            elif r < 0.85:
+                out.append("%s %s 0 %d" % (c, "ins" if rng.random() < 0.7 else "insh", k))
+            elif r < 0.93:
+                out.append("%s find %d" % (c, k))
+            else:
+                out.append("%s fe %s -1" % (c, rng.choice(("fwd", "rev"))))
+        return out + ["%s show" % c, "%s fe fwd -1" % c]
+    return cont
 
 
 def replay(prop, path):
